@@ -16,6 +16,8 @@ type SpecEnv struct {
 	st    *State
 	old   *State
 	depth int
+	targs map[string]types.Type // type arguments of the generic callee whose contract is being applied
+	cur   bool // built by specEnvCur: source-level locals shadow the parameters' entry values
 }
 
 func (vc *VC) specEnv(fr *Frame, st, old *State, extra map[string]Val) *SpecEnv {
@@ -63,6 +65,7 @@ func (vc *VC) specEnvCur(fr *Frame, st, old *State, extra map[string]Val) *SpecE
 	for k, v := range extra {
 		env.vars[k] = v
 	}
+	env.cur = true
 	return env
 }
 
@@ -79,6 +82,17 @@ func (e *SpecEnv) with(name string, v Val) *SpecEnv {
 func (e *SpecEnv) inOld() *SpecEnv {
 	n := *e
 	n.st = e.old
+	if e.cur && e.fr != nil && len(e.fr.params) > 0 {
+		// old(p) of a parameter that the body reassigns is the value it had on entry, not the current binding
+		n.vars = make(map[string]Val, len(e.vars))
+		for k, x := range e.vars {
+			n.vars[k] = x
+		}
+		for k, v := range e.fr.params {
+			n.vars[k] = v
+		}
+		n.cur = false
+	}
 	return &n
 }
 
@@ -337,6 +351,9 @@ func (vc *VC) resolveType(env *SpecEnv, name string) types.Type {
 				return tn.Type()
 			}
 		}
+	}
+	if t, ok := env.targs[id]; ok && !strings.Contains(name, ".") {
+		return t
 	}
 	// type parameter of the current function's receiver
 	if env.fr != nil {
